@@ -13,20 +13,44 @@ Section Prims.
   Definition uod_event (x : ev) : bool :=
     match x with EUInit _ _ | EUExec _ _ _ | EUFinal _ _ => true | _ => false end.
 
+  Lemma find_u_name e n c : find_u e n = Some c -> c_name c = n.
+  Proof. unfold find_u. intros H. apply find_some in H as [_ H]. now apply Nat.eqb_eq in H. Qed.
+  Lemma find_u_add e c : find_u e (c_name c) = None -> find_u (set_cmds e (reg e) (uods e ++ [c])) (c_name c) = Some c.
+  Proof.
+    unfold find_u. cbn [set_cmds uods]. induction (uods e) as [|x l IH]; cbn [find app]; intros H.
+    - now rewrite Nat.eqb_refl.
+    - destruct (Nat.eqb (c_name x) (c_name c)); [discriminate|]. now apply IH.
+  Qed.
+  Lemma find_u_put e c c' : find_u e (c_name c') = Some c -> find_u (put_u e c') (c_name c') = Some c'.
+  Proof.
+    unfold find_u, put_u. cbn [set_cmds uods]. induction (uods e) as [|x l IH]; cbn [find map]; intros H; [discriminate|].
+    destruct (Nat.eqb (c_name x) (c_name c')) eqn:Ex.
+    - cbn [find]. now rewrite Nat.eqb_refl.
+    - cbn [find]. rewrite Ex. now apply IH.
+  Qed.
+  Lemma uods_note_cancel e r : uods (note_cancel e r) = uods e.
+  Proof. unfold note_cancel. destruct (r_name r) as [[]|]; try reflexivity; destruct (trk e); reflexivity. Qed.
+  Lemma find_u_note_cancel e r n : find_u (note_cancel e r) n = find_u e n.
+  Proof. unfold find_u. now rewrite uods_note_cancel. Qed.
+  Lemma find_u_note_cancel_m e m r n : find_u (note_cancel_m e m r) n = find_u e n.
+  Proof. destruct m; [reflexivity|apply find_u_note_cancel]. Qed.
+
   Inductive prim : E -> E -> Prop :=
   | P_mgr e x d q rp : prim e (set_mgr e x d q rp)             (* queue / executing list / done set / pending restart *)
   | P_iticks e k : prim e (set_iticks e k)
   | P_now e t w : prim e (set_now e t w)
   | P_clocks e dt : started e = true -> prim e (update_clocks e dt)    (* update_calculated_tags runs only while started *)
   | P_root e : prim e (root_push e)
-  | P_emit e x : uod_event x = true -> prim e (emit e x)
+  (* the life cycle of a UOD command instance, with what the code has established at that point *)
+  | P_uadd e c : find_u e (c_name c) = None -> c_init c = false -> prim e (set_cmds e (reg e) (uods e ++ [c]))
+  | P_uinit e n c : find_u e n = Some c -> c_init c = false -> prim e (put_u (emit e (EUInit n (c_id c))) (inited c))
+  | P_uexec e n c id k : find_u e n = Some c -> c_id c = id -> c_init c = true -> prim e (emit e (EUExec n id k))
+  | P_uput e c c' : find_u e (c_name c') = Some c -> c_id c' = c_id c -> c_init c' = c_init c -> prim e (put_u e c')
+  | P_ufin e c c0 : find_u e (c_name c) = Some c0 -> c_id c0 = c_id c -> prim e (fin_u e c)
   | P_write e : prim e (write_image e)
   | P_add_i e c : prim e (set_cmds e (reg e ++ [c]) (uods e))
   | P_put_i e c : prim e (put_i e c)
   | P_drop_i e n : prim e (drop_i e n)
-  | P_add_u e c : prim e (set_cmds e (reg e) (uods e ++ [c]))
-  | P_put_u e c : prim e (put_u e c)
-  | P_drop_u e n : prim e (drop_u e n)
   | P_creq e i : prim e (add_creq e i)
   | P_out e u i v : prim e (set_out_by u e i v)
   | P_unpause e : prim e (unpause_body e)
@@ -60,17 +84,17 @@ Section Prims.
     apply star_one. apply P_mgr.
   Qed.
 
-  Lemma fin_u_star e c : star e (fin_u e c).
-  Proof.
-    unfold fin_u. apply (star_step _ (emit e (EUFinal (c_name c) (c_id c)))); [apply P_emit; reflexivity|].
-    apply star_one. apply P_drop_u.
-  Qed.
+  Lemma fin_u_star e c c0 : find_u e (c_name c) = Some c0 -> c_id c0 = c_id c -> star e (fin_u e c).
+  Proof. intros H1 H2. apply star_one. now apply (P_ufin e c c0). Qed.
 
   Lemma note_cancel_star e r : star e (note_cancel e r).
   Proof.
     unfold note_cancel. destruct (r_name r) as [[]|]; try apply star_refl; destruct (trk e); try apply star_refl;
       apply star_one; apply P_creq.
   Qed.
+
+  Lemma note_cancel_m_star e m r : star e (note_cancel_m e m r).
+  Proof. destruct m; [apply star_refl|apply note_cancel_star]. Qed.
 
   Lemma cancel_request_star e m r : star e (fst (cancel_request e m r)).
   Proof.
@@ -80,16 +104,18 @@ Section Prims.
       + eapply star_trans; [|apply mark_done_star]. apply star_one. unfold fin_i. apply P_drop_i.
       + set (e1 := match n with Pause => unpause_body e | Hold => unhold_body e | _ => e end).
         assert (S1 : star e e1) by (unfold e1; destruct n; try apply star_refl; apply star_one; [apply P_unpause|apply P_unhold]).
-        destruct (mark_cancelled_raises e1 r).
+        destruct (mark_cancelled_raises (tk e1 m) r).
         * cbn [fst]. eapply star_snoc; [exact S1|apply P_put_i].
         * eapply star_trans; [|apply mark_done_star]. eapply star_trans; [exact S1|].
-          eapply star_trans; [apply note_cancel_star|]. apply star_one. unfold fin_i. apply P_drop_i.
-    - destruct (find_u e n) as [c|]; [|apply star_refl].
+          eapply star_trans; [apply note_cancel_m_star|]. apply star_one. unfold fin_i. apply P_drop_i.
+    - destruct (find_u e n) as [c|] eqn:Ef; [|apply star_refl].
+      pose proof (find_u_name _ _ _ Ef) as Hn.
       destruct (c_complete c).
-      + eapply star_trans; [|apply mark_done_star]. apply fin_u_star.
-      + destruct (mark_cancelled_raises e r).
-        * cbn [fst]. apply star_one. apply P_put_u.
-        * eapply star_trans; [|apply mark_done_star]. eapply star_trans; [apply note_cancel_star|apply fin_u_star].
+      + eapply star_trans; [|apply mark_done_star]. apply (fin_u_star e c c); [now rewrite Hn|reflexivity].
+      + destruct (mark_cancelled_raises (tk e m) r).
+        * cbn [fst]. apply star_one. apply (P_uput e c); [cbn [c_name]; now rewrite Hn|reflexivity|reflexivity].
+        * eapply star_trans; [|apply mark_done_star]. eapply star_trans; [apply note_cancel_m_star|].
+          apply (fin_u_star _ c c); [rewrite find_u_note_cancel_m; now rewrite Hn|reflexivity].
   Qed.
 
   Lemma fold_star {A} (f : E * mgr -> A -> E * mgr) :
@@ -190,7 +216,7 @@ Section Prims.
         assert (S1 : star e e1).
         { eapply star_step; [apply (P_add_i e c)|]. fold e0. unfold e1.
           destruct n; try apply star_refl. destruct m; [apply star_refl|apply star_one; apply P_mgr]. }
-        destruct (untracked e1 r); cbn [fst]; [exact S1|].
+        destruct (untracked (tk e1 m) r); cbn [fst]; [exact S1|].
         pose proof (tick_icmd_star e1 m c) as K.
         destruct (tick_icmd safe e1 m c) as [[[e2 m2] failed] fin]. cbn [fst] in K.
         destruct (failed || fin); cbn [fst]; [|eapply star_trans; eauto].
@@ -218,11 +244,11 @@ Section Prims.
     pose proof (fold_star f2 H2 (current e1 m1) (e1, m1)) as S2. cbn [fst] in S2.
     destruct (fold_left f2 (current e1 m1) (e1, m1)) as [e2 m2]. cbn [fst] in S2.
     assert (S02 : star e e2) by (eapply star_trans; eauto).
-    assert (Tail : forall e3 c, star e e3 ->
+    assert (Tail : forall e3 c, find_u e3 n = Some c -> star e e3 ->
       star e (fst (fst (
         if c_cancelled c then let '(e5, m5) := mark_done (fin_u e3 c) m2 r in (e5, m5, false) else
-        let e4 := if c_init c then e3 else emit e3 (EUInit n (c_id c)) in
-        if negb (c_started c) && untracked e4 r then
+        let e4 := if c_init c then e3 else put_u (emit e3 (EUInit n (c_id c))) (inited c) in
+        if negb (c_started c) && untracked (tk e4 m2) r then
           (put_u e4 {| c_name := n; c_id := c_id c; c_init := true; c_started := false; c_iter := c_iter c; c_complete := false;
                        c_cancelled := true |}, m2, true)
         else
@@ -235,8 +261,8 @@ Section Prims.
           if fails then
             let c' := {| c_name := n; c_id := c_id c; c_init := true; c_started := true; c_iter := it; c_complete := false;
                          c_cancelled := true |} in
-            let '(e7, m7) := if mark_cancelled_raises e6 r then (put_u e6 c', m2)
-                             else mark_done (fin_u (put_u (note_cancel e6 r) c') c') m2 r in (e7, m7, true)
+            let '(e7, m7) := if mark_cancelled_raises (tk e6 m2) r then (put_u e6 c', m2)
+                             else mark_done (fin_u (put_u (note_cancel_m e6 m2 r) c') c') m2 r in (e7, m7, true)
           else
             let complete := Z.of_nat (u_dur (r_scr r)) <=? it in
             let c' := {| c_name := n; c_id := c_id c; c_init := true; c_started := true; c_iter := it; c_complete := complete;
@@ -244,39 +270,60 @@ Section Prims.
             let e7 := put_u e6 c' in
             if complete then let '(e8, m8) := mark_done (fin_u e7 c') m2 r in (e8, m8, false)
             else (e7, m2, false))))).
-    { intros e3 c S3.
+    { intros e3 c F3 S3.
+      pose proof (find_u_name _ _ _ F3) as Hn.
       destruct (c_cancelled c).
       - pose proof (mark_done_star (fin_u e3 c) m2 r) as K. destruct (mark_done (fin_u e3 c) m2 r) as [e5 m5]. cbn [fst] in *.
-        eapply star_trans; [exact S3|]. eapply star_trans; [apply fin_u_star|exact K].
-      - cbv zeta. set (e4 := if c_init c then e3 else emit e3 (EUInit n (c_id c))).
-        assert (S4 : star e e4).
-        { unfold e4. destruct (c_init c); [exact S3|]. eapply star_snoc; [exact S3|]. apply (P_emit e3 (EUInit n (c_id c))). reflexivity. }
-        destruct (negb (c_started c) && untracked e4 r).
-        + cbn [fst]. eapply star_snoc; [exact S4|apply P_put_u].
+        eapply star_trans; [exact S3|]. eapply star_trans; [apply (fin_u_star e3 c c); [now rewrite Hn|reflexivity]|exact K].
+      - cbv zeta. set (e4 := if c_init c then e3 else put_u (emit e3 (EUInit n (c_id c))) (inited c)).
+        set (c4 := if c_init c then c else inited c).
+        assert (S4 : star e e4 /\ find_u e4 n = Some c4 /\ c_init c4 = true /\ c_id c4 = c_id c).
+        { unfold e4, c4. destruct (c_init c) eqn:Ei.
+          - repeat split; assumption.
+          - split; [eapply star_snoc; [exact S3|]; now apply P_uinit|].
+            split; [|split; reflexivity].
+            rewrite <- Hn. apply (find_u_put (emit e3 (EUInit (c_name c) (c_id c))) c (inited c)). cbn [inited c_name]. now rewrite Hn. }
+        destruct S4 as [S4 [F4 [I4 D4]]]. clearbody e4 c4.
+        destruct (negb (c_started c) && untracked (tk e4 m2) r).
+        + cbn [fst]. eapply star_snoc; [exact S4|]. apply (P_uput e4 c4); [exact F4|now rewrite D4|now rewrite I4].
         + destruct (c_complete c).
           * pose proof (mark_done_star (fin_u e4 c) m2 r) as K. destruct (mark_done (fin_u e4 c) m2 r) as [e5 m5]. cbn [fst] in *.
-            eapply star_trans; [exact S4|]. eapply star_trans; [apply fin_u_star|exact K].
+            eapply star_trans; [exact S4|]. eapply star_trans; [apply (fin_u_star e4 c c4); [now rewrite Hn|exact D4]|exact K].
           * set (e5 := emit e4 (EUExec n (c_id c) (c_iter c + 1))).
             set (e6 := match u_out (r_scr r) with Some (o, v) => set_out_by (r_user r) e5 o (v + (c_iter c + 1)) | None => e5 end).
-            assert (S6 : star e e6).
-            { eapply star_trans; [exact S4|]. eapply star_step; [apply (P_emit e4 (EUExec n (c_id c) (c_iter c + 1))); reflexivity|].
-              fold e5. unfold e6. destruct (u_out (r_scr r)) as [[o v]|]; [apply star_one; apply P_out|apply star_refl]. }
+            assert (S6 : star e e6 /\ find_u e6 n = Some c4).
+            { split.
+              - eapply star_trans; [exact S4|]. eapply star_step; [apply (P_uexec e4 n c4 (c_id c) (c_iter c + 1)); assumption|].
+                fold e5. unfold e6. destruct (u_out (r_scr r)) as [[o v]|]; [apply star_one; apply P_out|apply star_refl].
+              - unfold e6, e5. destruct (u_out (r_scr r)) as [[o v]|]; exact F4. }
+            destruct S6 as [S6 F6]. clearbody e6.
             destruct (match u_fail (r_scr r) with Some k => Z.of_nat k <=? c_iter c + 1 | None => false end).
-            -- destruct (mark_cancelled_raises e6 r).
-               ++ cbn [fst]. eapply star_snoc; [exact S6|apply P_put_u].
+            -- destruct (mark_cancelled_raises (tk e6 m2) r).
+               ++ cbn [fst]. eapply star_snoc; [exact S6|]. apply (P_uput e6 c4); [exact F6|now rewrite D4|now rewrite I4].
                ++ match goal with |- context [mark_done ?a ?b ?c0] =>
                     pose proof (mark_done_star a b c0) as K; destruct (mark_done a b c0) as [e7 m7] end.
-                  cbn [fst] in *. eapply star_trans; [exact S6|]. eapply star_trans; [apply note_cancel_star|].
-                  eapply star_step; [apply P_put_u|]. eapply star_trans; [apply fin_u_star|exact K].
+                  cbn [fst] in *. eapply star_trans; [exact S6|]. eapply star_trans; [apply note_cancel_m_star|].
+                  assert (Fn : find_u (note_cancel_m e6 m2 r) n = Some c4) by (now rewrite find_u_note_cancel_m).
+                  match type of K with star (fin_u (put_u ?x ?c') _) _ =>
+                    apply (star_step _ (put_u x c')); [apply (P_uput x c4 c'); [exact Fn|now rewrite D4|now rewrite I4]|];
+                    eapply star_trans; [|exact K];
+                    apply (fin_u_star (put_u x c') c' c'); [apply (find_u_put x c4 c'); exact Fn|reflexivity] end.
             -- destruct (Z.of_nat (u_dur (r_scr r)) <=? c_iter c + 1).
                ++ match goal with |- context [mark_done ?a ?b ?c0] =>
                     pose proof (mark_done_star a b c0) as K; destruct (mark_done a b c0) as [e8 m8] end.
-                  cbn [fst] in *. eapply star_trans; [exact S6|]. eapply star_step; [apply P_put_u|].
-                  eapply star_trans; [apply fin_u_star|exact K].
-               ++ cbn [fst]. eapply star_snoc; [exact S6|apply P_put_u]. }
-    destruct (find_u e2 n) as [c|].
-    - apply Tail. exact S02.
-    - apply Tail. eapply star_snoc; [exact S02|apply P_add_u].
+                  cbn [fst] in *. eapply star_trans; [exact S6|].
+                  match type of K with star (fin_u (put_u ?x ?c') _) _ =>
+                    apply (star_step _ (put_u x c')); [apply (P_uput x c4 c'); [exact F6|now rewrite D4|now rewrite I4]|];
+                    eapply star_trans; [|exact K];
+                    apply (fin_u_star (put_u x c') c' c'); [apply (find_u_put x c4 c'); exact F6|reflexivity] end.
+               ++ cbn [fst]. eapply star_snoc; [exact S6|]. apply (P_uput e6 c4); [exact F6|now rewrite D4|now rewrite I4]. }
+    destruct (find_u e2 n) as [c|] eqn:Ef.
+    - apply Tail; [exact Ef|exact S02].
+    - set (c := {| c_name := n; c_id := r_id r; c_init := false; c_started := false; c_iter := -1; c_complete := false;
+                   c_cancelled := false |}).
+      apply Tail.
+      + apply (find_u_add e2 c). exact Ef.
+      + eapply star_snoc; [exact S02|]. apply (P_uadd e2 c); [exact Ef|reflexivity].
   Qed.
 
   Lemma exec_loop_star todo : forall e m, star e (fst (fst (exec_loop safe overlaps e m todo))).
